@@ -113,3 +113,24 @@ def c03(ctx, rep):
     cmptables.rule_addr_tables(ctx, rep)
     cmptables.rule_int_tables(ctx, rep)
     cmptables.rule_kind_exact_compared(ctx, rep)
+
+
+from .rules import gtxn_tables  # noqa: E402
+
+
+@prop("C10", "Decides the structural clauses of C10: (T-INDEX) index classification Self/Absolute/Relative/Unknown incl. sign of "
+             "offsets and operand order; (T-KEYMATCH) key family x read kind matching matrix; (T-KEYNAME) key constructors vs "
+             "predicates vs decoder for every index and offset incl. negative; (T-KEYRANGE) index/offset ranges of the contexts; "
+             "(T-ATTR) a check read through gtxn/gtxns constrains exactly the keys of that transaction; (T-GTXNMERGE) merge of "
+             "own-field information into at-index keys only; (T-STORE) key family <-> accessor pairing of every analysis. "
+             "Not decided: soundness for other group members over all programs.")
+def c10(ctx, rep):
+    gtxn_tables.rule_index_classification(ctx, rep)
+    gtxn_tables.rule_key_matching(ctx, rep)
+    gtxn_tables.rule_key_names(ctx, rep)
+    gtxn_tables.rule_key_universe(ctx, rep)
+    gtxn_tables.rule_gtxn_attribution(ctx, rep)
+    gtxn_tables.rule_gtxn_merge(ctx, rep)
+    for name, mod in (("T-STORE(fee)", "fee_field"), ("T-STORE(addr)", "addr_fields"), ("T-STORE(kind)", "txn_types")):
+        rep.rule(name, "key family <-> context accessor pairing in _store_results")
+        cmptables._store_family_rule(ctx, rep, name, mod)
